@@ -588,6 +588,7 @@ class ArrayInst:
                  data_values=(0xA5A5A5A5A5, 0x5A5A5A5A5A), dev_values=(0x3C3C3C3C3C,), m1_letters=None):
         from migen import Memory
         self.name, self.bw, self.aw, self.nmasters = name, bw, aw, nmasters
+        self.ordering = ordering
         self.pbits = _log2(paging // 4)
 
         class Src:
@@ -757,7 +758,6 @@ class ArrayMonitor:
         self.banks = []
         o = 1
         d = 4 * inst.nmasters
-        ordering = "big" if " 0 %d " % inst.pbits in inst.lean_open else None
         for (nm, csrs, mapaddr, rmap), regs in zip(inst.array.banks, inst.bank_regs):
             nout = sum(4 + (len(r.fields) if r.kind == STORAGE else 0) for r in regs)
             mon = RegFileMonitor(regs, inst.bw, inst.ordering, inst.pbits, mapaddr,
